@@ -659,6 +659,26 @@ pub fn gen_ws(ch: &mut Chooser, cx: &mut CaseCtx, o: &WsGenOpts) -> WsCase {
                     let target = path_in_patch.clone();
                     ops.push(FileOp { kind: if mode_change { "mode".into() } else { "modify".into() }, old_path: chg.old_path.clone(), new_path: chg.new_path.clone(), target, hunks: fp.hunks.clone(), failing_hunks: failing, fail_reason: fail_reason.clone() });
                     specs.push(fp);
+                    if o.allow_dup_entries && failing_here && fail_reason.as_deref() == Some("no-match") && !reverse && alt_note.is_none() && !mode_change && ch.chance(1, 3) {
+                        // a second entry for the same file whose hunks cannot apply either (whatever the first entry
+                        // left of the file): the reject must hold the failed hunks of both entries
+                        let (nl2, eops2) = gen_edit(ch, &lines, alpha, true);
+                        if nl2 != lines {
+                            let chg2 = FileChange { old_path: path.clone(), new_path: path.clone(), old: Some(lines.clone()), new: Some(nl2), old_mode: Some(f.mode), new_mode: Some(f.mode), rename: false };
+                            let mut fp2 = build_file_patch(ch, &dd, &chg2, &eops2, cc.max(1), Merge::Gnu);
+                            fp2.hunks.retain(|h| h.lines.iter().any(|l| l.tag == b'-'));
+                            if !fp2.hunks.is_empty() && !is_k2_shape(&fp2.hunks) {
+                                for h in fp2.hunks.iter_mut() {
+                                    for l in h.lines.iter_mut().filter(|l| l.tag == b'-') {
+                                        l.text = B::new(SENTINEL);
+                                    }
+                                }
+                                ops.push(FileOp { kind: "modify".into(), old_path: path.clone(), new_path: path.clone(), target: path.clone(), hunks: fp2.hunks.clone(), failing_hunks: (0..fp2.hunks.len()).collect(), fail_reason: Some("no-match".into()) });
+                                specs.push(fp2);
+                                feat.push("two-failing-entries-for-one-file".into());
+                            }
+                        }
+                    }
                     if dup && fail_reason.is_none() && alt_note.is_none() {
                         // second entry: another edit of the same file, on top of the first
                         let base = nl.clone();
